@@ -96,7 +96,7 @@ class Mon(Monitor):
                     out.append(V('idle', 'not-idle-after-loss/%s/on-%s' % (state_name(c), ev[0]), 'state %s after connectionLost' % state_name(c)))
                 else:
                     self.see('idle-after-loss')
-            if o[0] == 'exc' and o[1] in ('connectionLost', 'dataReceived'):
+            if o[0] == 'exc' and (o[1] in ('connectionLost', 'dataReceived') or o[1] == 'timer:connectError'):
                 out.append(V('exc', 'exception/%s/%s' % (o[1], o[3]), '%s: %s' % (o[3], o[4])))
             if o[0] == 'cb' and o[1] == 'onDisconnection':
                 c = w.conns[o[2]]
@@ -192,6 +192,9 @@ def scenarios(ctx):
                        pub_qos=(1,), lose_kinds=('done', 'lost'), drain_max_ticks=12, drain_horizon=40.0,
                        budgets=dict(connect=2 if q else 3, connack=2 if q else 3, badconnack=1, dupconnack=1, tick=2 if q else 4,
                                     lose=1 if q else 2, rebuild=1 if q else 2, pub=1, reconn2=1, disconnect=1, badconnect=1)))
+    out.append(Std('reenter-connected-disconnect', profile='pubsub', mode='async', connects=[(True, 2, 4), (False, 0, 3)],
+                   reconnects=[(True, 2, 4)], reenter=('ok:connect>disconnect',), lose_kinds=('done',), drain_max_ticks=12,
+                   drain_horizon=40.0, budgets=dict(connect=2, connack=2, tick=3, lose=1, rebuild=1)))
     out.append(Std('two-addresses', profile='pubsub', mode='async', naddr=2, connects=[(True, 0, 4), (False, 2, 4)],
                    reconnects=[(True, 0, 4)], pub_qos=(1,), lose_kinds=('done',), drain_max_ticks=12, drain_horizon=40.0,
                    budgets=dict(tick=2),
